@@ -1267,3 +1267,45 @@ impl SrtpSession {
         }
     }
 }
+
+#[cfg(rustrtc_verif)]
+impl SrtpSession {
+    /// Put the receive context of `ssrc` (created if missing) at a given position. Lets a check reach rollover
+    /// counters near 2^32 and SRTCP indices near 2^31 without sending 2^48 packets.
+    pub fn verif_force_rx_state(
+        &mut self,
+        ssrc: u32,
+        roc: u32,
+        last_seq: Option<u16>,
+        rtcp_index: u32,
+    ) -> SrtpResult<()> {
+        if !self.rx_contexts.contains_key(&ssrc) {
+            let ctx = SrtpContext::new(ssrc, self.profile, self.rx_keying.clone(), SrtpDirection::Receiver)?;
+            self.rx_contexts.insert(ssrc, ctx);
+        }
+        let c = self.rx_contexts.get_mut(&ssrc).expect("just inserted");
+        c.rollover_counter = roc;
+        c.last_sequence = last_seq;
+        c.rtcp_index = rtcp_index;
+        Ok(())
+    }
+
+    /// Same for the transmit context of `ssrc`.
+    pub fn verif_force_tx_state(
+        &mut self,
+        ssrc: u32,
+        roc: u32,
+        last_seq: Option<u16>,
+        rtcp_index: u32,
+    ) -> SrtpResult<()> {
+        if !self.tx_contexts.contains_key(&ssrc) {
+            let ctx = SrtpContext::new(ssrc, self.profile, self.tx_keying.clone(), SrtpDirection::Sender)?;
+            self.tx_contexts.insert(ssrc, ctx);
+        }
+        let c = self.tx_contexts.get_mut(&ssrc).expect("just inserted");
+        c.rollover_counter = roc;
+        c.last_sequence = last_seq;
+        c.rtcp_index = rtcp_index;
+        Ok(())
+    }
+}
